@@ -54,6 +54,8 @@ pub enum Op {
   OnErrorResumeNext(Resume),
   // ---- schedulers (synchronous default scheduler)
   ObserveOnDefault,
+  /// `observables::defer(|| input)`: the input pipeline handed out by a factory, per subscription
+  Defer,
   /// `.ref_count().observable()` / `.replay().observable()`: for a single subscriber the identity,
   /// connected at its arrival and disconnected when it leaves (replay: over hot sources only, C13's known finding)
   RefCount,
@@ -119,6 +121,7 @@ impl Op {
       Op::RetryWhen(_) => "retry_when",
       Op::OnErrorResumeNext(_) => "on_error_resume_next",
       Op::ObserveOnDefault => "observe_on",
+      Op::Defer => "defer",
       Op::RefCount => "ref_count",
       Op::ReplayConn => "replay",
       Op::SubscribeOnDefault => "subscribe_on",
@@ -467,6 +470,10 @@ pub fn build_typed(n: &Node, env: &Env) -> Built {
       }))
     }
     Op::ObserveOnDefault => Built::V(src.observe_on(schedulers::default_scheduler())),
+    Op::Defer => Built::V(observables::defer(move || {
+      let _ = &t;
+      src.clone()
+    })),
     Op::RefCount => Built::V(src.ref_count().observable()),
     Op::ReplayConn => Built::V(src.replay().observable()),
     Op::SubscribeOnDefault => Built::V(src.subscribe_on(schedulers::default_scheduler())),
